@@ -175,8 +175,9 @@ def check_property(pid, tier, seed, write_lock=False):
     f = match_finding(findings, pid, clause=v.get('clause'), signature=v.get('signature'))
     sig = (v.get('clause'), v.get('signature'))
     if f is not None:
-      if sig not in seen_sig:
-        known_lines.append(f'KNOWN-FINDING: property={pid} {f["text"]}')
+      line = f'KNOWN-FINDING: property={pid} {f["text"]}'
+      if line not in known_lines:
+        known_lines.append(line)
       seen_sig.add(sig)
       continue
     unmatched_bounded.append(v)
